@@ -80,7 +80,9 @@ Section Simplex.
 
 End Simplex.
 
-(* ---------------- the fit ---------------- *)
+(* ---------------- the fit: lemmas without numeric hypotheses ----------------
+   (the former all-vectors theorems fit_skeleton_total_lemma / fit_t_values_lemma / fit_t_range_lemma of this section,
+   which assumed "(N3) the cost kernel is not NaN for EVERY parameter vector", are gone: see Section FitEvaluated) *)
 Section FitProofs.
   Variable F : Type.
   Variable point : Type.
@@ -89,22 +91,10 @@ Section FitProofs.
   Variable fcmp : F -> F -> option comparison.
   Variable fnan : F -> bool.
   Variables (fadd fsub fmul : F -> F -> F) (fhalf fabs : F -> F) (fzero : F).
-  Variable guess6 : list point -> point -> point -> point -> list F.
-  Variable bump : F -> F.
   Variable point_val : list F -> point -> F.
-  Variable closest : list F -> point -> F.
-  Variable nm : (list F -> res F) -> list (list F) -> res (option (list F)).
-  Variable sd_tol_ok : bool.
 
   Notation minmax_loop := (minmax_loop F point p_r flt).
   Notation minmax_r := (minmax_r F point p_r flt).
-  Notation dev := (dev F point p_r fsub fabs).
-  Notation three_template_points := (three_template_points F point p_r p_x p_y flt feq fcmp fadd fsub fmul fhalf fabs).
-  Notation simplex_loop := (simplex_loop F bump).
-  Notation initial_simplex := (initial_simplex F bump).
-  Notation cost := (cost F point fnan fadd fzero point_val).
-  Notation fit := (fit_cluster_to_helix F point p_r p_x p_y flt feq fcmp fnan fadd fsub fmul fhalf fabs fzero
-                     guess6 bump point_val closest nm sd_tol_ok).
 
   Lemma minmax_loop_in : forall fuel l mn mx (P : point -> Prop),
     P mn -> P mx -> (forall x, In x l -> P x) ->
@@ -135,48 +125,6 @@ Section FitProofs.
       destruct (minmax_loop (length t) mn mx t) as [f la]. exists f, la. auto.
   Qed.
 
-  (* ---- named numeric hypotheses ---- *)
-  Variable pts : list point.
-  (* (N1) IEEE: partial_cmp of two non-NaN numbers is Some *)
-  Hypothesis fcmp_num : forall x y, fnan x = false -> fnan y = false -> fcmp x y <> None.
-  (* (N2) the radii are not NaN (and finite), so that |p.r - (a.r + b.r)/2| is a number for points of the cluster *)
-  Hypothesis dev_num : forall a b p, In a pts -> In b pts -> In p pts ->
-    fnan (dev (fhalf (fadd (p_r a) (p_r b))) p) = false.
-  (* (N3) the cost oracle never yields NaN: norm_sqr(p, helix.at(helix.closest_t(p))) for every parameter vector
-     the minimiser tries  — THE NAMED GAP (NaN-freedom of closest_t / Helix::at in binary64) *)
-  Hypothesis val_num : forall p q, In q pts -> fnan (point_val p q) = false.
-  (* (N4) the optimiser returns a parameter vector of the dimension of the simplex whenever the cost function
-     does not panic (argmin's Nelder-Mead; best_param is Some) — THE NAMED GAP (not modelled) *)
-  Hypothesis nm_returns : forall (c : list F -> res F) s n,
-    (forall p, length p = n -> c p <> Panic /\ forall k, c p <> Err k) ->
-    Forall (fun v => length v = n) s -> s <> [] ->
-    exists v, nm c s = Ok (Some v) /\ length v = n.
-  (* (N5) the initial guess is a vec! of 6 numbers; the sd tolerance (f64::EPSILON) is not negative *)
-  Hypothesis guess_len : forall f m l, length (guess6 pts f m l) = 6.
-  Hypothesis sd_ok : sd_tol_ok = true.
-  (* the cluster has at least 3 points (13 by the clustering stage) *)
-  Hypothesis pts_len : 3 <= length pts.
-
-  Lemma three_template_points_total :
-    (exists f m l, three_template_points pts = Ok (f, m, l) /\ In f pts /\ In m pts /\ In l pts)
-    \/ three_template_points pts = Err E_noinit.
-  Proof.
-    unfold Fit.three_template_points.
-    assert (Hne : pts <> []) by (destruct pts; cbn in pts_len; [lia | discriminate]).
-    destruct (minmax_r_some pts Hne) as (f & la & E & Hf & Hla). rewrite E. cbn [unwrap bind].
-    destruct pts as [ | a t] eqn:Ep; [now destruct Hne | ]. rewrite <- Ep in *.
-    set (mid := fhalf (fadd (p_r f) (p_r la))).
-    destruct (min_by_res_ok (fun a b => unwrap (fcmp (dev mid a) (dev mid b))) (fun p => In p pts)) with (l := t) (acc := a)
-      as (m & Em & Hm).
-    - intros x y Hx Hy. apply unwrap_some. apply fcmp_num; apply dev_num; assumption.
-    - rewrite Ep. now left.
-    - intros x Hx. rewrite Ep. now right.
-    - rewrite Em. cbn [bind].
-      match goal with |- context [if ?c then _ else _] => destruct c end.
-      + now right.
-      + left. exists f, m, la. auto.
-  Qed.
-
   Lemma cost_fold_ok : forall (p : list F) l acc0,
     (forall q, In q l -> fnan (point_val p q) = false) ->
     exists s, fold_left (fun acc q => do s <- acc; let val := point_val p q in
@@ -185,69 +133,6 @@ Section FitProofs.
     intros p. induction l as [ | q t IH]; intros acc0 H; cbn.
     - eauto.
     - rewrite (H q (or_introl eq_refl)). cbn. apply IH. intros; apply H; now right.
-  Qed.
-
-  Lemma cost_total : forall p, length p = 6 -> cost pts p <> Panic /\ forall k, cost pts p <> Err k.
-  Proof.
-    intros p Lp. unfold Fit.cost.
-    destruct (nth_res_ok p 0 ltac:(lia)) as (? & -> & _). destruct (nth_res_ok p 1 ltac:(lia)) as (? & -> & _).
-    destruct (nth_res_ok p 2 ltac:(lia)) as (? & -> & _). destruct (nth_res_ok p 3 ltac:(lia)) as (? & -> & _).
-    destruct (nth_res_ok p 4 ltac:(lia)) as (? & -> & _). destruct (nth_res_ok p 5 ltac:(lia)) as (? & -> & _).
-    cbn [bind].
-    match goal with |- context [fold_left ?f pts (Ok fzero)] =>
-      assert (Hf : exists s, fold_left f pts (Ok fzero) = Ok s)
-        by (apply (cost_fold_ok p pts fzero (fun q Hq => val_num p q Hq))) end.
-    destruct Hf as (s & ->).
-    split; [discriminate | intros; discriminate].
-  Qed.
-
-  (* fit_skeleton_total: under (N1)-(N5) and |cluster| >= 3 the fit does not panic, and its only error is
-     NoInitialParameters *)
-  Theorem fit_skeleton_total_lemma :
-    fit pts <> Panic /\ (forall k, fit pts = Err k -> k = E_noinit).
-  Proof.
-    unfold Fit.fit_cluster_to_helix.
-    assert (L3 : (3 <=? length pts) = true) by (apply Nat.leb_le; exact pts_len). rewrite L3. cbn [assert_].
-    destruct three_template_points_total as [(f & m & l & E & Hf & Hm & Hl) | E]; rewrite E; cbn [bind].
-    2: { split; [discriminate | intros k Hk; now inversion Hk]. }
-    destruct (initial_simplex_ok F bump (guess6 pts f m l)) as (s & Es & Fs & Ns). rewrite Es. cbn [bind].
-    rewrite sd_ok. cbn [assert_].
-    rewrite guess_len in Fs.
-    destruct (nm_returns (cost pts) s 6 cost_total Fs Ns) as (v & Ev & Lv). rewrite Ev. cbn [bind unwrap].
-    destruct (nth_res_ok v 0 ltac:(lia)) as (? & -> & _). destruct (nth_res_ok v 1 ltac:(lia)) as (? & -> & _).
-    destruct (nth_res_ok v 2 ltac:(lia)) as (? & -> & _). destruct (nth_res_ok v 3 ltac:(lia)) as (? & -> & _).
-    destruct (nth_res_ok v 4 ltac:(lia)) as (? & -> & _). destruct (nth_res_ok v 5 ltac:(lia)) as (? & -> & _).
-    cbn [bind]. split; [discriminate | intros; discriminate].
-  Qed.
-
-  (* t_range: the end-point parameters of a returned track are values of closest_t at points of the cluster *)
-  Theorem fit_t_values_lemma : forall tr, fit pts = Ok tr ->
-    exists f l, In f pts /\ In l pts /\
-      tr_t_inner F tr = closest (tr_params F tr) f /\ tr_t_outer F tr = closest (tr_params F tr) l /\
-      length (tr_params F tr) = 6.
-  Proof.
-    unfold Fit.fit_cluster_to_helix.
-    assert (L3 : (3 <=? length pts) = true) by (apply Nat.leb_le; exact pts_len). rewrite L3. cbn [assert_].
-    destruct three_template_points_total as [(f & m & l & E & Hf & Hm & Hl) | E]; rewrite E; cbn [bind].
-    2: { intros; discriminate. }
-    destruct (initial_simplex_ok F bump (guess6 pts f m l)) as (s & Es & Fs & Ns). rewrite Es. cbn [bind].
-    rewrite sd_ok. cbn [assert_].
-    rewrite guess_len in Fs.
-    destruct (nm_returns (cost pts) s 6 cost_total Fs Ns) as (v & Ev & Lv). rewrite Ev. cbn [bind unwrap].
-    destruct (nth_res_ok v 0 ltac:(lia)) as (? & -> & _). destruct (nth_res_ok v 1 ltac:(lia)) as (? & -> & _).
-    destruct (nth_res_ok v 2 ltac:(lia)) as (? & -> & _). destruct (nth_res_ok v 3 ltac:(lia)) as (? & -> & _).
-    destruct (nth_res_ok v 4 ltac:(lia)) as (? & -> & _). destruct (nth_res_ok v 5 ltac:(lia)) as (? & -> & _).
-    cbn [bind]. intros tr Htr. inversion Htr; subst tr; clear Htr. cbn.
-    exists f, l. auto.
-  Qed.
-
-  (* with the range contract of closest_t (C16_closest_t_range) *)
-  Variable in_range : F -> Prop.          (* NaN or in [-pi, pi] *)
-  Hypothesis closest_range : forall hp q, in_range (closest hp q).
-  Theorem fit_t_range_lemma : forall tr, fit pts = Ok tr ->
-    in_range (tr_t_inner F tr) /\ in_range (tr_t_outer F tr).
-  Proof.
-    intros tr Htr. destruct (fit_t_values_lemma tr Htr) as (f & l & _ & _ & -> & -> & _). split; apply closest_range.
   Qed.
 
 End FitProofs.
@@ -348,12 +233,12 @@ End FitNotNan.
 
 
 (* ---------------- the optimiser as an interaction tree: hypotheses RELATIVE TO THE VECTORS IT EVALUATES ----------------
-   fit_skeleton_total_lemma / vertex_skeleton_total_lemma above assume the cost kernel is not NaN for EVERY parameter
-   vector (val_num, vval_num): no binary64 kernel satisfies that (p = [nan; ..], [.. inf ..], [0;0;0;2^1000;0;2^-40] give
-   NaN), so they apply to exact instances only.  They are kept because Signal/AvalTotal_proofs.v (C09) imports them.
-   The statements below replace them for C14: the optimiser is `run_strategy c (tree s)` (coq/Recon/Fit.v), and the
-   numeric gap is "the cost function returns a good number on the vectors the optimiser actually asks", which for the
-   real code says exactly: the assert at track_fitting.rs:265 (vertex_fitting.rs:231) does not fire during this fit. *)
+   Earlier versions of this file had fit_skeleton_total_lemma / vertex_skeleton_total_lemma, which assumed the cost kernel
+   not NaN for EVERY parameter vector (val_num, vval_num): no binary64 kernel satisfies that (p = [nan; ..], [.. inf ..],
+   [0;0;0;2^1000;0;2^-40] give NaN).  They have been REMOVED (C14 and C09 both use the statements below).
+   Here the optimiser is `run_strategy c (tree s)` (coq/Recon/Fit.v), and the numeric gap is "the cost function returns a
+   good number on the vectors the optimiser actually asks", which for the real code says exactly: the assert at
+   track_fitting.rs:265 (vertex_fitting.rs:231) does not fire during this fit. *)
 Section Strategy.
   Variable F : Type.
   Variable good : F -> Prop.
@@ -395,8 +280,8 @@ Proof.
   intros E; inversion E; cbn; auto.
 Qed.
 
-(* three_template_points_total again, depending only on (N1), (N2) and the length (the lemma of Section FitProofs
-   picked up every hypothesis of its section through a `rewrite .. in *`) *)
+(* three_template_points returns three points of the cluster or NoInitialParameters: depends only on (N1), (N2) and the
+   length *)
 Lemma three_template_points_total_min :
   forall (F point : Type) (p_r p_x p_y : point -> F) (flt feq : F -> F -> bool)
     (fcmp : F -> F -> option comparison) (fnan : F -> bool) (fadd fsub fmul : F -> F -> F) (fhalf fabs : F -> F)
@@ -481,6 +366,21 @@ Section FitEvaluated.
   Qed.
 End FitEvaluated.
 
+(* the simplex the fit hands to the optimiser is not empty and all its vertices have the length of the initial guess *)
+Lemma fit_simplex_shape :
+  forall (F point : Type) (p_r p_x p_y : point -> F) (flt feq : F -> F -> bool)
+    (fcmp : F -> F -> option comparison) (fadd fsub fmul : F -> F -> F) (fhalf fabs : F -> F)
+    (guess6 : list point -> point -> point -> point -> list F) (bump : F -> F) (pts : list point) s n,
+  (forall f m l, length (guess6 pts f m l) = n) ->
+  fit_simplex F point p_r p_x p_y flt feq fcmp fadd fsub fmul fhalf fabs guess6 bump pts = Ok s ->
+  s <> [] /\ Forall (fun v => length v = n) s.
+Proof.
+  intros F point p_r p_x p_y flt feq fcmp fadd fsub fmul fhalf fabs guess6 bump pts s n Hg. unfold fit_simplex.
+  destruct (three_template_points _ _ _ _ _ _ _ _ _ _ _ _ _ pts) as [[[f m] l] | | ]; cbn [bind]; try discriminate.
+  destruct (initial_simplex_ok F bump (guess6 pts f m l)) as (s' & E & Fs & Ns). rewrite E. intros H. inversion H; subst s'.
+  rewrite Hg in Fs. auto.
+Qed.
+
 (* what (N3e) says in terms of the kernel: the cost function returns on p iff p has its six components and
    norm_sqr(q, at(closest_t(q))) is not NaN for every point q of the cluster *)
 Lemma cost_ok_iff :
@@ -557,6 +457,8 @@ Proof.
       apply Permutation_sym, Permutation_cons_app, Permutation_app_head, Permutation_cons_append.
 Qed.
 
+(* lemmas without numeric hypotheses (the former all-vectors vertex_skeleton_total_lemma of this section is gone: see
+   Section VertexEvaluated) *)
 Section VertexProofs.
   Variable F : Type.
   Variable point : Type.
@@ -628,136 +530,28 @@ Section VertexProofs.
     intros in_range Hr tracks v rem Hv t x Hin. rewrite (vertex_t_values_lemma tracks v rem Hv t x Hin). apply Hr.
   Qed.
 
-  (* ---- named hypotheses ---- *)
-  Variable tracks : list T.
-  (* sort_unstable_by returns a permutation of its input (std; not modelled) *)
-  Hypothesis sortP_perm : forall l, Permutation (sortP l) l.
-  (* (V1) z of the closest approach to the beamline is not NaN: partial_cmp succeeds *)
-  Hypothesis zb_cmp : forall a b, In a tracks -> In b tracks -> fcmp (t_zb a) (t_zb b) <> None.
-  (* (V2) sums of helix radii of sets of input tracks are not NaN *)
-  Hypothesis rad_cmp : forall x y, (forall t, In t x -> In t tracks) -> (forall t, In t y -> In t tracks) ->
-    fcmp (sumF (map t_rad x)) (sumF (map t_rad y)) <> None.
-  (* (V3) the vertex cost oracle never yields NaN — THE NAMED GAP *)
-  Hypothesis vval_num : forall ts p t, fnan (vcost_val ts p t) = false.
-  (* (V4) the optimiser returns a parameter vector of the dimension of the simplex — THE NAMED GAP *)
-  Hypothesis nm_returns : forall (c : list F -> res F) s n,
-    (forall p, length p = n -> c p <> Panic /\ forall k, c p <> Err k) ->
-    Forall (fun v => length v = n) s -> s <> [] ->
-    exists v, nm c s = Ok (Some v) /\ length v = n.
-  Hypothesis vguess_len : forall z, length (vguess z) = 3.
-  Hypothesis sd_ok : sd_tol_ok = true.
-  (* (V5) the input tracks have no NaN field (finite parameters, t_inner, t_outer not NaN: what C14 promises of
-     the fit), so the derived PartialEq is reflexive on them; it is symmetric and transitive on all values *)
-  Hypothesis teq_refl : forall t, In t tracks -> teq t t = true.
-  Hypothesis teq_sym : forall a b, teq a b = true -> teq b a = true.
-  Hypothesis teq_trans : forall a b c, teq a b = true -> teq b c = true -> teq a c = true.
-
-  Lemma beamline_clusters_ok : forall l, (forall t, In t l -> In t tracks) ->
-    exists bc, beamline_clusters l = Ok bc /\ Permutation (concat (map fst bc)) l.
-  Proof.
-    intros l Hl. unfold Fit.beamline_clusters. destruct l as [ | a t] eqn:El.
-    - exists []. split; [reflexivity | constructor].
-    - rewrite <- El in *. unfold sort_by_res.
-      assert (Hf : forallb (fun a => forallb (fun b => match fcmp (t_zb a) (t_zb b) with Some _ => true | None => false end) l) l = true).
-      { apply forallb_forall. intros x Hx. apply forallb_forall. intros y Hy.
-        destruct (fcmp (t_zb x) (t_zb y)) eqn:E; [reflexivity | ].
-        exfalso. apply (zb_cmp x y (Hl x Hx) (Hl y Hy)). exact E. }
-      rewrite Hf. cbn [bind].
-      assert (Hlen : length (sortP l) = length l) by (apply Permutation_length, sortP_perm).
-      destruct (sortP l) as [ | s0 srest] eqn:Es.
-      { rewrite El in Hlen. cbn in Hlen. lia. }
-      cbn [nth_res nth_error unwrap bind skipn].
-      destruct (bc_loop_ok srest [] [s0] ltac:(discriminate)) as (cl & E & C). rewrite E. cbn [bind].
-      eexists; split; [reflexivity | ].
-      rewrite map_map. cbn [fst]. rewrite map_id, C. cbn. rewrite <- Es. apply sortP_perm.
-  Qed.
-
-  Lemma vcost_total : forall ts p, length p = 3 -> vcost ts p <> Panic /\ forall k, vcost ts p <> Err k.
-  Proof.
-    intros ts p Lp. unfold Fit.vcost.
-    destruct (nth_res_ok p 0 ltac:(lia)) as (? & -> & _). destruct (nth_res_ok p 1 ltac:(lia)) as (? & -> & _).
-    destruct (nth_res_ok p 2 ltac:(lia)) as (? & -> & _). cbn [bind].
-    assert (Hf : forall l acc0, exists s,
-      fold_left (fun acc t => do s <- acc; let val := vcost_val ts p t in
-                               assert_ (negb (fnan val)) (Ok (fadd s val))) l (Ok acc0) = Ok s).
-    { induction l as [ | q t IH]; intros acc0; cbn; [eauto | ]. rewrite vval_num. cbn. apply IH. }
-    match goal with |- context [fold_left ?f ts (Ok fzero)] =>
-      assert (Hg : exists s, fold_left f ts (Ok fzero) = Ok s) by (apply (Hf ts fzero)) end.
-    destruct Hg as (s & ->). split; [discriminate | intros; discriminate].
-  Qed.
-
-  Lemma remove_all_ok : forall vs trs,
-    (forall v, In v vs -> teq v v = true) ->
-    (forall x, cnt (fun t => teq t x) vs <= cnt (fun t => teq t x) trs) ->
-    exists r, remove_all vs trs = Ok r.
-  Proof.
-    induction vs as [ | v rest IH]; intros trs Hr Hc; cbn.
-    - eauto.
-    - assert (Hv : teq v v = true) by (apply Hr; now left).
-      assert (H1 : 1 <= cnt (fun t => teq t v) trs).
-      { specialize (Hc v). rewrite cnt_cons, Hv in Hc. lia. }
-      destruct (position_some _ _ H1) as (i & x & Ep & En & Ex). rewrite Ep. cbn [unwrap bind].
-      destruct (swap_remove_perm trs i x En) as (trs' & Es & Pm). rewrite Es. cbn [bind].
-      apply IH; [intros; apply Hr; now right | ].
-      intros y. specialize (Hc y). rewrite cnt_cons in Hc. rewrite (cnt_perm _ _ _ Pm), cnt_cons in Hc.
-      assert (Eq : teq v y = teq x y).
-      { destruct (teq v y) eqn:A, (teq x y) eqn:B; try reflexivity.
-        - rewrite (teq_trans x v y Ex A) in B. discriminate.
-        - rewrite (teq_trans v x y (teq_sym _ _ Ex) B) in A. discriminate. }
-      rewrite Eq in Hc. lia.
-  Qed.
-
-  Lemma max_set_len_in : forall (l : list (list T * F)) c, In c (max_set_len F T l) -> In c l.
-  Proof. intros l c H. unfold max_set_len in H. apply filter_In in H. tauto. Qed.
-
-  (* vertex_skeleton_total: find_vertices returns (no panic, no error) under (V1)-(V5) *)
-  Theorem vertex_skeleton_total_lemma : exists r, find_vertices tracks = Ok r.
-  Proof.
-    unfold Fit.find_vertices.
-    set (primary := filter is_primary tracks).
-    assert (Hp : forall t, In t primary -> In t tracks) by (intros t H; apply filter_In in H; tauto).
-    destruct (beamline_clusters_ok primary Hp) as (bc & Eb & Pb). rewrite Eb. cbn [bind].
-    set (cands := max_set_len F T (filter (fun c => (1 <? length (fst c))) bc)).
-    assert (Hc : forall c, In c cands -> In c bc).
-    { intros c H. apply max_set_len_in in H. apply filter_In in H. tauto. }
-    assert (Hbc : forall c, In c bc -> forall t, In t (fst c) -> In t tracks).
-    { intros c Hcb t Ht. apply Hp. apply (Permutation_in _ Pb). apply in_concat. exists (fst c). split; [ | exact Ht].
-      apply in_map. exact Hcb. }
-    assert (Hbest : exists best, (match cands with
-              | [] => Ok None
-              | c :: t => do b <- max_by_res (fun a b => unwrap (fcmp (sumF (map t_rad (fst a))) (sumF (map t_rad (fst b))))) c t;
-                          Ok (Some b) end) = Ok best /\ (forall b, best = Some b -> In b bc)).
-    { destruct cands as [ | c t] eqn:Ec.
-      - exists None. split; [reflexivity | discriminate].
-      - destruct (max_by_res_ok (fun a b => unwrap (fcmp (sumF (map t_rad (fst a))) (sumF (map t_rad (fst b)))))
-                    (fun c => In c bc)) with (l := t) (acc := c) as (m & Em & Hm).
-        + intros x y Hx Hy. apply unwrap_some. apply rad_cmp; apply Hbc; assumption.
-        + apply Hc. now left.
-        + intros x Hx. apply Hc. now right.
-        + rewrite Em. cbn [bind]. exists (Some m). split; [reflexivity | ]. intros b Hb. now inversion Hb; subst. }
-    destruct Hbest as (best & -> & Hb). cbn [bind].
-    destruct best as [[ts mz] | ].
-    - specialize (Hb _ eq_refl).
-      destruct (initial_simplex_ok F bump (vguess mz)) as (s & Es & Fs & Ns). rewrite Es. cbn [bind].
-      rewrite sd_ok. cbn [assert_]. rewrite vguess_len in Fs.
-      destruct (nm_returns (vcost ts) s 3 (vcost_total ts) Fs Ns) as (v & Ev & Lv). rewrite Ev. cbn [bind unwrap].
-      destruct (nth_res_ok v 0 ltac:(lia)) as (? & -> & _). destruct (nth_res_ok v 1 ltac:(lia)) as (? & -> & _).
-      destruct (nth_res_ok v 2 ltac:(lia)) as (? & -> & _). cbn [bind v_tracks].
-      rewrite map_map. cbn [fst]. rewrite map_id.
-      destruct (remove_all_ok ts tracks) as (r & ->).
-      + intros t Ht. apply teq_refl. apply (Hbc _ Hb). exact Ht.
-      + intros y. etransitivity; [apply (cnt_concat_in _ ts (map fst bc)); apply (in_map fst) in Hb; exact Hb | ].
-        rewrite (cnt_perm _ _ _ Pb). apply cnt_filter_le.
-      + cbn [bind]. eauto.
-    - cbn [bind remove_all Fit.remove_all]. eauto.
-  Qed.
-
 End VertexProofs.
 
+(* the vertex cost function returns on a vector of three components when no summand is NaN *)
+Lemma vcost_ok :
+  forall (F : Type) (fnan : F -> bool) (fadd : F -> F -> F) (fzero : F) (T : Type)
+    (vcost_val : list T -> list F -> T -> F) (ts : list T) (p : list F),
+  length p = 3 -> (forall t, In t ts -> fnan (vcost_val ts p t) = false) ->
+  exists y, vcost F fnan fadd fzero T vcost_val ts p = Ok y.
+Proof.
+  intros F fnan fadd fzero T vcost_val ts p Lp H. unfold Fit.vcost.
+  destruct (nth_res_ok p 0 ltac:(lia)) as (? & -> & _). destruct (nth_res_ok p 1 ltac:(lia)) as (? & -> & _).
+  destruct (nth_res_ok p 2 ltac:(lia)) as (? & -> & _). cbn [bind].
+  assert (Hf : forall l acc0, (forall t, In t l -> fnan (vcost_val ts p t) = false) -> exists s,
+    fold_left (fun acc t => do s <- acc; let val := vcost_val ts p t in
+                             assert_ (negb (fnan val)) (Ok (fadd s val))) l (Ok acc0) = Ok s).
+  { induction l as [ | q t IH]; intros acc0 Hl; cbn; [eauto | ]. rewrite (Hl q (or_introl eq_refl)). cbn.
+    apply IH. intros; apply Hl; now right. }
+  apply (Hf ts fzero H).
+Qed.
+
 (* ---------------- vertex finding with the optimiser as an interaction tree (hypotheses relative to the vectors it
-   evaluates; see the comment before Section Strategy).  The lemmas of Section VertexProofs picked up every hypothesis of
-   their section (among them vval_num) through `rewrite .. in *`; the three that are needed are proved again here from the
-   hypotheses they use. *)
+   evaluates; see the comment before Section Strategy) ---------------- *)
 Section VertexEvaluated.
   Variable F : Type.
   Variable point : Type.
@@ -851,9 +645,13 @@ Section VertexEvaluated.
   Hypothesis sd_ok : sd_tol_ok = true.
   Hypothesis teq_refl : forall t, In t tracks -> teq t t = true.
 
-  Theorem vertex_skeleton_total_evaluated_lemma : exists r, find_vertices tracks = Ok r.
+  (* the same with (V2) asked only of the beamline clusters that are actually compared (:45-51): (V2bc) *)
+  Theorem vertex_skeleton_total_evaluated_bc_lemma :
+    (forall bc a b, beamline_clusters (filter is_primary tracks) = Ok bc -> In a bc -> In b bc ->
+       fcmp (sumF (map t_rad (fst a))) (sumF (map t_rad (fst b))) <> None) ->
+    exists r, find_vertices tracks = Ok r.
   Proof.
-    unfold Fit.find_vertices.
+    clear rad_cmp. intros rad_cmp_bc. unfold Fit.find_vertices.
     set (primary := filter is_primary tracks).
     assert (Hp : forall t, In t primary -> In t tracks) by (intros t H; apply filter_In in H; tauto).
     destruct (beamline_clusters_ok_min primary Hp) as (bc & Eb & Pb). rewrite Eb. cbn [bind].
@@ -871,7 +669,7 @@ Section VertexEvaluated.
       - exists None. split; [reflexivity | discriminate].
       - destruct (max_by_res_ok (fun a b => unwrap (fcmp (sumF (map t_rad (fst a))) (sumF (map t_rad (fst b)))))
                     (fun c => In c bc)) with (l := t) (acc := c) as (m & Em & Hm).
-        + intros x y Hx Hy. apply unwrap_some. apply rad_cmp; apply Hbc; assumption.
+        + intros x y Hx Hy. apply unwrap_some. exact (rad_cmp_bc bc x y Eb Hx Hy).
         + apply Hc. now left.
         + intros x Hx. apply Hc. now right.
         + rewrite Em. cbn [bind]. exists (Some m). split; [reflexivity | ]. intros b Hb. now inversion Hb; subst. }
@@ -897,79 +695,82 @@ Section VertexEvaluated.
       + cbn [bind]. eauto.
     - cbn [bind remove_all Fit.remove_all]. eauto.
   Qed.
+
+  Theorem vertex_skeleton_total_evaluated_lemma : exists r, find_vertices tracks = Ok r.
+  Proof.
+    apply vertex_skeleton_total_evaluated_bc_lemma. intros bc a b Eb Ha Hb.
+    assert (Hp : forall t, In t (filter is_primary tracks) -> In t tracks) by (intros t H; apply filter_In in H; tauto).
+    destruct (beamline_clusters_ok_min _ Hp) as (bc' & Eb' & Pb). rewrite Eb in Eb'. inversion Eb'; subst bc'.
+    assert (Hbc : forall c, In c bc -> forall t, In t (fst c) -> In t tracks).
+    { intros c Hcb t Ht. apply Hp. apply (Permutation_in _ Pb). apply in_concat. exists (fst c). split; [ | exact Ht].
+      apply in_map. exact Hcb. }
+    apply rad_cmp; apply Hbc; assumption.
+  Qed.
 End VertexEvaluated.
 
 (* ---------------- the hypotheses are satisfiable: an exact toy instance ---------------- *)
 Module Toy.
-  (* numbers = nat with exact operations, points = their radius; the optimiser returns the first simplex vertex *)
+  (* numbers = nat with exact operations, points = their radius; the optimiser asks the first vertex of the simplex and
+     returns it *)
   Definition ncmp (x y : nat) : option comparison := Some (Nat.compare x y).
-  Definition nm (c : list nat -> res nat) (s : list (list nat)) : res (option (list nat)) := Ok (hd_error s).
+  Definition tree (s : list (list nat)) : strategy nat :=
+    match s with v :: _ => Ask v (fun _ => Done (Some v)) | [] => Crash end.
+  Definition nm (c : list nat -> res nat) (s : list (list nat)) : res (option (list nat)) := run_strategy c (tree s).
+  Definition good (_ : nat) : Prop := True.
   Definition fit (pts : list nat) :=
     fit_cluster_to_helix nat nat (fun p => p) (fun p => p) (fun p => p * p) Nat.ltb Nat.eqb ncmp (fun _ => false)
       Nat.add Nat.sub Nat.mul (fun x => Nat.div x 2) (fun x => x) 0
       (fun _ f m l => [f; m; l; 0; 0; 0]) (fun x => if Nat.eqb x 0 then 1 else 2 * x)
-      (fun _ _ => 0) (fun _ _ => 0) nm true pts.
-  Lemma nm_returns : forall (c : list nat -> res nat) s n,
-    (forall p, length p = n -> c p <> Panic /\ forall k, c p <> Err k) ->
-    Forall (fun v => length v = n) s -> s <> [] ->
-    exists v, nm c s = Ok (Some v) /\ length v = n.
+      (fun _ _ => 0) (fun _ _ => 0) (fun c s => run_strategy c (tree s)) true pts.
+  Lemma tree_wf : forall s n, s <> [] -> Forall (fun v => length v = n) s -> wf_strategy good n [] (tree s).
   Proof.
-    intros c s n _ Fs Ns. destruct s as [ | v t]; [now destruct Ns | ]. exists v. split; [reflexivity | ].
-    now inversion Fs.
+    intros s n Ns Fs. destruct s as [ | v t]; [now destruct Ns | ]. inversion Fs; subst. cbn [tree].
+    apply wf_ask; [reflexivity | ]. intros y _. apply wf_done. now left.
+  Qed.
+  Lemma tree_asked : forall c s n p, s <> [] -> Forall (fun v => length v = n) s -> In p (asked c (tree s)) -> length p = n.
+  Proof.
+    intros c s n p Ns Fs. destruct s as [ | v t]; [now destruct Ns | ]. inversion Fs; subst. cbn [tree asked].
+    intros [<- | H]; [reflexivity | ]. destruct (c v); destruct H.
   Qed.
   Lemma fit_total : forall pts, 3 <= length pts -> fit pts <> Panic /\ (forall k, fit pts = Err k -> k = E_noinit).
   Proof.
-    intros pts Hl. unfold fit. apply fit_skeleton_total_lemma; try reflexivity; try assumption.
+    intros pts Hl. unfold fit. apply fit_skeleton_total_evaluated_lemma with (good := good); try reflexivity; try assumption.
     - intros; discriminate.
-    - apply nm_returns.
+    - intros s Hs p Hp. pose proof Hs as Hs'. eapply fit_simplex_shape with (n := 6) in Hs'; [ | intros; reflexivity]. destruct Hs' as [Ns Fs].
+      pose proof (tree_asked _ s 6 p Ns Fs Hp) as Lp.
+      destruct (proj2 (cost_ok_iff nat nat (fun _ => false) Nat.add 0 (fun _ _ => 0) pts p Lp) (fun _ _ => eq_refl)) as (y & Hy).
+      exists y. split; [exact Hy | exact I].
+    - intros s Hs. pose proof Hs as Hs'. eapply fit_simplex_shape with (n := 6) in Hs'; [ | intros; reflexivity]. destruct Hs' as [Ns Fs].
+      apply tree_wf; assumption.
   Qed.
 
   Definition find (tracks : list nat) :=
-    find_vertices nat nat ncmp (fun _ => false) Nat.add 0 (fun x => if Nat.eqb x 0 then 1 else 2 * x) nm true
+    find_vertices nat nat ncmp (fun _ => false) Nat.add 0 (fun x => if Nat.eqb x 0 then 1 else 2 * x)
+      (fun c s => run_strategy c (tree s)) true
       nat Nat.eqb (fun t => t / 4) (fun t => t) (fun _ => true) (fun a b => Nat.eqb a b)
       (fun l => fold_left Nat.add l 0) (fun l => hd 0 l) (fun l => l) (fun _ => 0) (fun _ _ _ => 0)
       (fun z => [0; 0; z]) (fun _ _ => 0) tracks.
   Lemma find_total : forall tracks, exists r, find tracks = Ok r.
   Proof.
-    intros tracks. unfold find. apply vertex_skeleton_total_lemma; try reflexivity.
+    intros tracks. unfold find. apply vertex_skeleton_total_evaluated_lemma with (good := good); try reflexivity.
     - intros; discriminate.
-    - intros; discriminate.
-    - apply nm_returns.
-    - intros; apply Nat.eqb_refl.
     - intros a b H. apply Nat.eqb_eq in H. subst. apply Nat.eqb_refl.
     - intros a b c H1 H2. apply Nat.eqb_eq in H1, H2. subst. apply Nat.eqb_refl.
+    - intros; discriminate.
+    - intros ts mz s _ Hs p Hp.
+      destruct (initial_simplex_ok nat (fun x => if Nat.eqb x 0 then 1 else 2 * x) [0; 0; mz]) as (s' & E & Fs & Ns).
+      rewrite Hs in E. inversion E; subst s'. pose proof (tree_asked _ s 3 p Ns Fs Hp) as Lp.
+      destruct (vcost_ok nat (fun _ : nat => false) Nat.add 0 nat (fun _ _ _ => 0) ts p Lp (fun _ _ => eq_refl)) as (y & Hy).
+      exists y. split; [exact Hy | exact I].
+    - intros ts mz s _ Hs.
+      destruct (initial_simplex_ok nat (fun x => if Nat.eqb x 0 then 1 else 2 * x) [0; 0; mz]) as (s' & E & Fs & Ns).
+      rewrite Hs in E. inversion E; subst s'. apply tree_wf; assumption.
+    - intros; apply Nat.eqb_refl.
   Qed.
 End Toy.
 
-(* ---------------- t_range over binary64: the fit with the real closest_t ---------------- *)
 From AG Require Recon.Helix_proofs.
 (* helix_of_params (track_fitting.rs:112-119: the helix built from best_params) is defined in Recon/Fit.v *)
-
-Theorem fit_t_range_binary64_lemma :
-  forall (L : libm) (tol : PrimFloat.float) (iters : nat),
-  (forall y x, Helix_proofs.rn (latan2 L y x)) ->
-  forall (flt feq : PrimFloat.float -> PrimFloat.float -> bool) fcmp fnan fadd fsub fmul fhalf fabs fzero
-    guess6 bump point_val nm sd_tol_ok (pts : list spoint),
-  (forall x y, fnan x = false -> fnan y = false -> fcmp x y <> None) ->
-  (forall a b p, In a pts -> In b pts -> In p pts ->
-     fnan (dev PrimFloat.float spoint sp_r fsub fabs (fhalf (fadd (sp_r a) (sp_r b))) p) = false) ->
-  (forall p q, In q pts -> fnan (point_val p q) = false) ->
-  (forall (c : list PrimFloat.float -> res PrimFloat.float) s n,
-     (forall p, length p = n -> c p <> Panic /\ forall k, c p <> Err k) ->
-     Forall (fun v => length v = n) s -> s <> [] ->
-     exists v, nm c s = Ok (Some v) /\ length v = n) ->
-  (forall f m l, length (guess6 pts f m l) = 6) -> sd_tol_ok = true -> 3 <= length pts ->
-  forall tr,
-  fit_cluster_to_helix PrimFloat.float spoint sp_r (sp_x L) (sp_y L) flt feq fcmp fnan fadd fsub fmul fhalf fabs fzero
-    guess6 bump point_val (fun hp q => closest_t L (helix_of_params hp) q tol iters) nm sd_tol_ok pts = Ok tr ->
-  Helix_proofs.rn (tr_t_inner PrimFloat.float tr) /\ Helix_proofs.rn (tr_t_outer PrimFloat.float tr).
-Proof.
-  intros L tol iters Hat flt feq fcmp fnan fadd fsub fmul fhalf fabs fzero guess6 bump point_val nm sd pts
-    H1 H2 H3 H4 H5 H6 H7 tr Htr.
-  eapply (fit_t_range_lemma PrimFloat.float spoint sp_r (sp_x L) (sp_y L) flt feq fcmp fnan fadd fsub fmul fhalf fabs
-            fzero guess6 bump point_val _ nm sd pts H1 H2 H3 H4 H5 H6 H7 Helix_proofs.rn); [ | exact Htr].
-  intros hp q. apply Helix_proofs.closest_t_range_lemma. exact Hat.
-Qed.
 
 (* ---------------- the IEEE hypotheses (N1), (N2) discharged for the binary64 instance ---------------- *)
 From Coq Require Import ZArith Reals Floats SpecFloat Lra.
@@ -1060,30 +861,8 @@ Proof.
   apply fin_not_nan, abs_fin, F3.
 Qed.
 
-(* fit_skeleton_total for the binary64 instance (three_template_prim of coq/Recon/Fit.v, the one the differential tag
-   fit3 runs): only the genuinely numeric gaps (N3), (N4) and the shape facts (N5) remain as hypotheses *)
-Theorem fit_skeleton_total_binary64_lemma :
-  forall (L : libm) guess6 bump point_val closest nm sd_tol_ok (pts : list spoint),
-  (forall p, In p pts -> Rabs_le1 (sp_r p)) ->
-  (forall p q, In q pts -> PrimFloat.is_nan (point_val p q) = false) ->
-  (forall (c : list PrimFloat.float -> res PrimFloat.float) s n,
-     (forall p, length p = n -> c p <> Panic /\ forall k, c p <> Err k) ->
-     Forall (fun v => length v = n) s -> s <> [] ->
-     exists v, nm c s = Ok (Some v) /\ length v = n) ->
-  (forall f m l, length (guess6 pts f m l) = 6%nat) -> sd_tol_ok = true -> (3 <= length pts)%nat ->
-  let fit := fit_cluster_to_helix PrimFloat.float spoint sp_r (sp_x L) (sp_y L) PrimFloat.ltb PrimFloat.eqb fcmp_prim
-               PrimFloat.is_nan PrimFloat.add PrimFloat.sub PrimFloat.mul (fun x => x / 2) PrimFloat.abs 0
-               guess6 bump point_val closest nm sd_tol_ok in
-  fit pts <> Panic /\ (forall k, fit pts = Err k -> k = E_noinit).
-Proof.
-  intros L guess6 bump point_val closest nm sd pts Hr H3 H4 H5 H6 H7.
-  apply fit_skeleton_total_lemma; try assumption.
-  - apply fcmp_prim_total.
-  - intros a b p Ha Hb Hp. unfold dev. apply dev_prim_num; apply Hr; assumption.
-Qed.
-
-
-(* the evaluated-vector form for the binary64 instance (the one the differential tag fit3 runs): (N1), (N2) discharged *)
+(* fit_skeleton_total for the binary64 instance (three_template_prim of coq/Recon/Fit.v, the one the differential tag fit3
+   runs): (N1), (N2) discharged, only the gaps (N3e), (N4e) remain *)
 Theorem fit_skeleton_total_evaluated_binary64_lemma :
   forall (L : libm) guess6 bump point_val closest (tree : list (list PrimFloat.float) -> strategy PrimFloat.float)
     (good : PrimFloat.float -> Prop) sd_tol_ok (pts : list spoint),
